@@ -71,7 +71,7 @@ impl<'n> TryFromNode<'n> for Field {
 
         if let Some(ref_name) = node.attribute("ref") {
             let (xml_name, namespace_ref) = split_type(ref_name);
-            let rust_name = rename_keywords(&to_snake_case(xml_name)).to_string();
+            let rust_name = as_field_name(xml_name);
 
             if ref_name.starts_with("xml") {
                 /* This is a reference to an XML type */
@@ -102,7 +102,7 @@ impl<'n> TryFromNode<'n> for Field {
 
             let xml_name = ref_node.xml_name().ok_or(WriterError::InvalidReference)?;
             let rust_type = RustFieldType::Other(OtherRustType {
-                name: to_pascal_case(xml_name),
+                name: as_type_name(xml_name),
                 module,
             });
 
@@ -124,7 +124,7 @@ impl<'n> TryFromNode<'n> for Field {
             .ok_or_else(|| WriterError::attribute_missing(&node, "name"))?
             .to_string();
 
-        let rust_name = rename_keywords(&to_snake_case(&xml_name)).to_string();
+        let rust_name = as_field_name(&xml_name);
 
         let rust_type = node
             .attribute("type")
@@ -294,7 +294,7 @@ pub fn as_rust_type(node_type: &str, doc: &RustDocument) -> RustFieldType {
 
 fn user_type(name: &str, namespace: Option<&str>, doc: &RustDocument) -> RustFieldType {
     RustFieldType::Other(OtherRustType {
-        name: to_pascal_case(name),
+        name: as_type_name(name),
         module: namespace.and_then(|ns| {
             doc.find_module_name_from_namespace_reference(ns)
                 .map(ToString::to_string)
@@ -303,8 +303,26 @@ fn user_type(name: &str, namespace: Option<&str>, doc: &RustDocument) -> RustFie
 }
 
 pub fn as_field_name(xml_name: &str) -> String {
-    let field_name = to_snake_case(xml_name);
+    let field_name = as_identifier(&to_snake_case(xml_name));
     rename_keywords(&field_name).to_string()
+}
+
+/// The name of the struct that is generated for the XML type or element with this name.
+pub fn as_type_name(xml_name: &str) -> String {
+    let type_name = as_identifier(&to_pascal_case(xml_name));
+    if type_name == "Self" { "Self_".to_string() } else { type_name }
+}
+
+/// Makes sure that a name taken from a schema is a legal Rust identifier, whatever characters it contains.
+pub fn as_identifier(name: &str) -> String {
+    let mut identifier: String = name
+        .chars()
+        .map(|c| if c.is_ascii_alphanumeric() || c == '_' || (!c.is_ascii() && c.is_alphabetic()) { c } else { '_' })
+        .collect();
+    if identifier.is_empty() || identifier.starts_with(|c: char| c.is_ascii_digit()) {
+        identifier.insert(0, '_');
+    }
+    identifier
 }
 
 /// renamed the Rust keyword and quote the field name
